@@ -288,6 +288,172 @@ def explore(outputs, inputs, fast, limit=20000):
         yield dec, ok, total, ev_
 
 
+class Poly:
+    """Exact polynomial over formal atoms with rational coefficients (host value of the abstract interpreter)."""
+
+    __absint_host__ = True
+
+    def __init__(self, terms=None):
+        self.t = {k: v for k, v in (terms or {}).items() if v != 0}
+
+    @staticmethod
+    def atom(name):
+        from fractions import Fraction
+        return Poly({(name,): Fraction(1)})
+
+    @staticmethod
+    def const(c):
+        from fractions import Fraction
+        return Poly({(): Fraction(c)})
+
+    @staticmethod
+    def lift(o):
+        import numbers
+        if isinstance(o, Poly):
+            return o
+        if isinstance(o, numbers.Rational) or isinstance(o, float):
+            return Poly.const(o)
+        return None
+
+    def __add__(self, o):
+        o = Poly.lift(o)
+        if o is None:
+            return NotImplemented
+        d = dict(self.t)
+        for k, v in o.t.items():
+            d[k] = d.get(k, 0) + v
+        return Poly(d)
+
+    __radd__ = __add__
+
+    def __neg__(self):
+        return Poly({k: -v for k, v in self.t.items()})
+
+    def __pos__(self):
+        return self
+
+    def __sub__(self, o):
+        o = Poly.lift(o)
+        return NotImplemented if o is None else self + (-o)
+
+    def __rsub__(self, o):
+        o = Poly.lift(o)
+        return NotImplemented if o is None else o + (-self)
+
+    def __mul__(self, o):
+        o = Poly.lift(o)
+        if o is None:
+            return NotImplemented
+        d = {}
+        for k1, v1 in self.t.items():
+            for k2, v2 in o.t.items():
+                k = tuple(sorted(k1 + k2))
+                d[k] = d.get(k, 0) + v1 * v2
+        return Poly(d)
+
+    __rmul__ = __mul__
+
+    def __truediv__(self, o):
+        o = Poly.lift(o)
+        if o is None or set(o.t) != {()}:
+            return NotImplemented
+        return Poly({k: v / o.t[()] for k, v in self.t.items()})
+
+    def __eq__(self, o):
+        o = Poly.lift(o)
+        return o is not None and self.t == o.t
+
+    def __hash__(self):
+        return hash(tuple(sorted(self.t.items())))
+
+    def __repr__(self):
+        if not self.t:
+            return "0"
+        return " + ".join(f"{v}*{'*'.join(k) if k else '1'}" for k, v in sorted(self.t.items()))
+
+
+def check_product_accounting(r, repo, rule="R12.3", sizes=(1, 2, 3)):
+    """add/subtract/multiply/square hand renormalize a list whose exact sum is the exact result.
+
+    The function bodies are interpreted by the abstract interpreter (sa/absint.py) on symbolic expansions; the kernels are
+    summarised by their contracts: two_prod(a, b) -> (p, a*b - p) with p a fresh atom (error-free product, C10), vecsum(l) ->
+    fresh atoms whose sum is the sum of l (error-free, R12.1's subject), renormalize(l) is the sink.  Every product term,
+    its error term and every doubling of an off-diagonal term of square() must be accounted for, or the polynomial identity
+    fails."""
+    from sa.absint import Interp, Closure, Unsupported as IUnsupported, PyRaise
+
+    fresh = [0]
+
+    class Ctx:
+        __absint_host__ = True
+
+        def constant(self, v, like=None):
+            return Poly.const(v)
+
+    def two_prod(ctx, a, b, *rest, **kw):
+        fresh[0] += 1
+        pa = Poly.atom(f"p{fresh[0]}")
+        return (pa, a * b - pa)
+
+    def vecsum(ctx, seq, *rest, **kw):
+        seq = list(seq)
+        if not seq:
+            return []
+        out = []
+        for _ in seq[:-1]:
+            fresh[0] += 1
+            out.append(Poly.atom(f"v{fresh[0]}"))
+        tot = Poly.const(0)
+        for e in seq:
+            tot = tot + e
+        for o in out:
+            tot = tot - o
+        return out + [tot]
+
+    sink = []
+
+    def renormalize(ctx, seq, *rest, **kw):
+        sink.append(list(seq))
+        return list(seq)
+
+    n_ob = 0
+    cases = []
+    for n1 in sizes:
+        xs = [Poly.atom(f"x{i}") for i in range(n1)]
+        sx = sum(xs, Poly.const(0))
+        cases.append(("square", (xs,), {}, sx * sx, f"n={n1}"))
+        for n2 in sizes:
+            ys = [Poly.atom(f"y{i}") for i in range(n2)]
+            sy = sum(ys, Poly.const(0))
+            cases.append(("add", (xs, ys), {}, sx + sy, f"n=({n1},{n2})"))
+            cases.append(("subtract", (xs, ys), {}, sx - sy, f"n=({n1},{n2})"))
+            cases.append(("multiply", (xs, ys), {}, sx * sy, f"n=({n1},{n2})"))
+            from fractions import Fraction
+            scaled = sum((y * Fraction(1, 2 ** i) for i, y in enumerate(ys)), Poly.const(0))
+            cases.append(("multiply", (xs, ys), {"base": 2}, sx * scaled, f"n=({n1},{n2}) base=2"))
+    for fname, seqs, kw, want, tag in cases:
+        for functional in (False, True):
+            fn = repo.func(AP, fname)
+            I = Interp(repo)
+            for nm, impl in (("two_prod", two_prod), ("vecsum", vecsum), ("renormalize", renormalize)):
+                I.globals_cache[(AP, nm)] = impl
+            del sink[:]
+            fresh[0] = 0
+            clo = Closure(fn, {}, I, AP, bound_self=None)
+            try:
+                I.call(clo, [Ctx(), "DTYPE"] + [list(s_) for s_ in seqs], dict(kw, functional=functional))
+            except (IUnsupported, PyRaise) as e:
+                raise AnalysisError(f"{AP}::{fname} {tag}: not interpretable: {getattr(e, 'what', e)}")
+            if len(sink) != 1:
+                raise AnalysisError(f"{AP}::{fname} {tag}: renormalize is reached {len(sink)} times, expected once")
+            got = sum(sink[0], Poly.const(0))
+            ok = got == want
+            n_ob += 1
+            r.ob(rule, f"{AP}::{fname} {tag} functional={functional}", ok,
+                 "" if ok else f"the terms handed to renormalize sum to {got!r}; the exact result is {want!r}; difference {got - want!r}", loc(AP, fn))
+    return n_ob
+
+
 def run(repo, tier):
     r = Report("C12", tier, repo, level="other", design_ref="§3/C12")
     r.explanation = (
@@ -304,10 +470,12 @@ def run(repo, tier):
     r.assumptions = ["no overflow in intermediate sums", "fast=True: |a| >= |b| at every Fast2Sum (the documented precondition of the fast mode)",
                      "infeasible case splits are checked too (sound for a universal claim)"]
     r.rule("R12.1", "functional renormalize: in every case split, sum(outputs) == sum(inputs) exactly (affine-equality domain)", floor=8)
+    r.rule("R12.3", "add/subtract/multiply/square hand renormalize a list whose exact sum is the exact sum/difference/product/square (two_prod and vecsum summarised by their error-free contracts)", floor=40)
     r.rule("R12.2", "maximal expansion size tables equal (maxexp - minexp - machep) // (-negep - 1) for float16/32/64", floor=3)
 
     for rel in (AP, "floating_point_algorithms.py", "context.py", "expr.py"):
         repo.source(rel)
+    check_product_accounting(r, repo, sizes=(1, 2, 3) if tier == "quick" else (1, 2, 3, 4, 5))
     fa = load_package(repo.root)
     from ir import normal
     apmath = fa.apmath
